@@ -158,6 +158,18 @@ Theorem c11_databases_of_a_history :
   s_dbs (run_tevs h) = fst (run_trace (trace_of h) (dbs0, [])).
 Proof. exact history_dbs. Qed.
 
+(** WATCH never passes through the dispatch and is never logged, but since d9330f8 it expires the
+    keys it registers lazily: in the trace it is an item without a command ([x_parts] = []) that
+    leaves no record and removes from its database only entries of those keys whose deadline
+    had passed - nothing at all on databases without expired entries, which is what both replay
+    theorems ask of the live run anyway ([plain_run] / [timed_run]); the redo of the file never
+    sees a WATCH. *)
+Theorem c11_watch_only_expires :
+  forall now dbs x, x_parts x = [] ->
+  xrecs now dbs x = [] /\ xstep_dbs now dbs x = purge_dbs now dbs (x_db x) (x_purge x) /\
+  (lfresh_all now dbs -> xstep_dbs now dbs x = dbs).
+Proof. exact purge_only_item. Qed.
+
 (** ---- 5. completeness of the table: what is not written changes nothing ---- *)
 (** THE OBLIGATION over the generated table: a command of the modelled dispatch (strings/keys,
     lists/sets/hashes, sorted sets, streams/groups, SCAN family, scripts, PEXPIREAT) whose name
